@@ -486,6 +486,7 @@ theorem rowsDone_single (ord row : Nat) (fx : Fx) (st : ScanSt) (hw : fx.WF)
   · rw [visitStep_trace]; simp [rowSeq]
   · rw [visitStep_trace_full _ _ _ _ hw]; simp [recSeq]
   · rw [visitStep_rct]; simp
+  · rw [visitStep_endMark]
   · intro _; exact ⟨visitStep_anyValid .., visitStep_osv ..⟩
   · intro h; simp at h
 
@@ -512,6 +513,7 @@ theorem rowsDone_append (ord row : Nat) (a b : List Fx) (st st1 st2 : ScanSt)
   · rw [h2.trace, h1.trace, List.length_append, rowSeq_append]; simp
   · rw [h2.recs, h1.recs, recSeq_append, h1.speed, h1.bpm, h1.rowStart]; simp
   · rw [h2.rct, h1.rct, List.length_append]; omega
+  · rw [h2.endMark, h1.endMark]
   · intro hne
     by_cases hb : b = []
     · subst hb
